@@ -212,8 +212,10 @@ impl World {
             spec.mode.text(),
             spec.stance.text()
         );
-        if spec.conf != 0 {
-            members.push_str(&format!(", confidence: 0.{}", spec.conf));
+        match spec.stated_tenths() {
+            None => {}
+            Some(10) => members.push_str(", confidence: 1.0"),
+            Some(c) => members.push_str(&format!(", confidence: 0.{c}")),
         }
         let ev: Vec<String> = (0..N_EVIDENCE)
             .filter(|i| spec.ev >> i & 1 == 1)
